@@ -674,7 +674,7 @@ pub mod locks {
     pub struct LockEvent {
         /// name of the thread
         pub thread: String,
-        /// "want" (before the acquisition; `held` = what the thread holds then) | "rel"
+        /// "want" (before a blocking acquisition; `held` = what the thread holds then) | "got" (a try_* that succeeded) | "rel"
         pub kind: &'static str,
         pub lock: Held,
         pub held: Vec<Held>,
@@ -733,6 +733,12 @@ pub mod locks {
             HELD.with(|h| h.borrow_mut().push(self.0));
             self
         }
+        /// a successful non-blocking acquisition
+        fn got_now(lock: Held) -> Token {
+            let held = HELD.with(|h| h.borrow().clone());
+            record("got", lock, held);
+            Token(lock).got()
+        }
     }
 
     impl Drop for Token {
@@ -775,6 +781,15 @@ pub mod locks {
             let g = self.0.write();
             RwLockWriteGuard { g, _t: t.got() }
         }
+        /// non-blocking variants: recorded (kind "got") only when they succeed
+        pub fn try_read(&self) -> Option<RwLockReadGuard<'_, T>> {
+            let g = self.0.try_read()?;
+            Some(RwLockReadGuard { g, _t: Token::got_now(self.id('r')) })
+        }
+        pub fn try_write(&self) -> Option<RwLockWriteGuard<'_, T>> {
+            let g = self.0.try_write()?;
+            Some(RwLockWriteGuard { g, _t: Token::got_now(self.id('w')) })
+        }
         /// for observers: not recorded
         pub fn raw(&self) -> &parking_lot::RwLock<T> {
             &self.0
@@ -812,6 +827,11 @@ pub mod locks {
             let t = Token::want((class_of::<T>(), self as *const _ as usize, 'm'));
             let g = self.0.lock();
             MutexGuard { g, _t: t.got() }
+        }
+        /// non-blocking variant: recorded (kind "got") only when it succeeds
+        pub fn try_lock(&self) -> Option<MutexGuard<'_, T>> {
+            let g = self.0.try_lock()?;
+            Some(MutexGuard { g, _t: Token::got_now((class_of::<T>(), self as *const _ as usize, 'm')) })
         }
         /// for observers: not recorded
         pub fn raw(&self) -> &parking_lot::Mutex<T> {
